@@ -50,6 +50,7 @@ pub struct SelectSpec {
     pub oracle: String,
     pub arms: Vec<ArmSpec>,
     pub post: String,
+    pub fallback: bool,
 }
 #[derive(Clone, Default, Debug)]
 pub struct ClosureSite {
@@ -344,7 +345,7 @@ pub fn parse_spec(text: &str, prelude_dir: &str) -> Result<Unit, String> {
                         let index: usize = ws.get(1).and_then(|s| s.parse().ok()).ok_or_else(|| err("select index"))?;
                         let enum_name = kv(&ws, "enum").ok_or_else(|| err("enum="))?.to_string();
                         let oracle = kv(&ws, "oracle").ok_or_else(|| err("oracle="))?.to_string();
-                        f.selects.push(SelectSpec { index, enum_name, oracle, arms: vec![], post: String::new() });
+                        f.selects.push(SelectSpec { index, enum_name, oracle, arms: vec![], post: String::new(), fallback: flag(&ws, "fallback") });
                         sect = Sect::Select(f.selects.len() - 1);
                     }
                     "arm" => {
